@@ -22,6 +22,8 @@
 //!   mek D E | mak D S*                    map_exchange_key / map_asset_key_with_lookup (failing names)
 //!   build                                 IndexedInstruments::new / builder / from_iter, accessors
 //!   fxi E | fx N | fai E S | fa N | fii E S | fi N      the six lookups
+//! Expiries (in <kind> / <mdkind>) are millisecond timestamps 0 ..= MAX_EXPIRY_MS (year 9999); an op
+//! with a larger one is answered `bad-op` (the drivers do the same).
 use barter_instrument::{
     Keyed, Side, Underlying,
     asset::{
@@ -248,8 +250,19 @@ fn undec(d: Decimal) -> String {
     assert!(s.chars().all(|c| c.is_ascii_digit()), "integer decimal");
     s
 }
-fn time(ms: usize) -> DateTime<Utc> {
-    Utc.timestamp_millis_opt(ms as i64).unwrap()
+/// Largest expiry an op may carry: 9999-12-31T23:59:59.999Z. Up to here `NaiveDate`'s Display is the
+/// plain `YYYY-MM-DD` the model prints; beyond it chrono prints a sign and five or more digits, from
+/// 8_210_266_876_800_000 on the timestamp is not representable at all and from 2^63 on `as i64`
+/// would wrap to a negative time. Such ops are answered `bad-op` (by the drivers too).
+const MAX_EXPIRY_MS: u64 = 253_402_300_799_999;
+
+/// `None` = expiry outside the supported range (the op is answered `bad-op`)
+fn time(t: &str) -> Option<DateTime<Utc>> {
+    let ms: u64 = t.parse().ok()?;
+    if ms > MAX_EXPIRY_MS {
+        return None;
+    }
+    Utc.timestamp_millis_opt(ms as i64).single()
 }
 fn untime(t: DateTime<Utc>) -> i64 {
     t.timestamp_millis()
@@ -265,8 +278,9 @@ fn p_asset(t: &mut Toks) -> Asset {
     Asset::new(i, e)
 }
 
-fn p_kind(t: &mut Toks) -> InstrumentKind<Asset> {
-    match t.t() {
+/// `None` = an expiry outside the supported range
+fn p_kind(t: &mut Toks) -> Option<InstrumentKind<Asset>> {
+    Some(match t.t() {
         "s" => InstrumentKind::Spot,
         "p" => InstrumentKind::Perpetual(PerpetualContract {
             contract_size: dec(t.n()),
@@ -275,7 +289,7 @@ fn p_kind(t: &mut Toks) -> InstrumentKind<Asset> {
         "f" => InstrumentKind::Future(FutureContract {
             contract_size: dec(t.n()),
             settlement_asset: p_asset(t),
-            expiry: time(t.n()),
+            expiry: time(t.t())?,
         }),
         "o" => InstrumentKind::Option(OptionContract {
             contract_size: dec(t.n()),
@@ -286,11 +300,11 @@ fn p_kind(t: &mut Toks) -> InstrumentKind<Asset> {
                 OptionExercise::Bermudan,
                 OptionExercise::European,
             ][t.n()],
-            expiry: time(t.n()),
+            expiry: time(t.t())?,
             strike: dec(t.n()),
         }),
         other => panic!("bad kind {other}"),
-    }
+    })
 }
 
 fn p_spec(t: &mut Toks) -> Option<InstrumentSpec<Asset>> {
@@ -315,11 +329,12 @@ fn p_spec(t: &mut Toks) -> Option<InstrumentSpec<Asset>> {
     }
 }
 
-fn p_mdkind(t: &mut Toks) -> MarketDataInstrumentKind {
-    match t.t() {
+/// `None` = an expiry outside the supported range
+fn p_mdkind(t: &mut Toks) -> Option<MarketDataInstrumentKind> {
+    Some(match t.t() {
         "s" => MarketDataInstrumentKind::Spot,
         "p" => MarketDataInstrumentKind::Perpetual,
-        "f" => MarketDataInstrumentKind::Future(MarketDataFutureContract { expiry: time(t.n()) }),
+        "f" => MarketDataInstrumentKind::Future(MarketDataFutureContract { expiry: time(t.t())? }),
         "o" => MarketDataInstrumentKind::Option(MarketDataOptionContract {
             kind: [OptionKind::Call, OptionKind::Put][t.n()],
             exercise: [
@@ -327,14 +342,14 @@ fn p_mdkind(t: &mut Toks) -> MarketDataInstrumentKind {
                 OptionExercise::Bermudan,
                 OptionExercise::European,
             ][t.n()],
-            expiry: time(t.n()),
+            expiry: time(t.t())?,
             strike: {
                 let m = t.i();
                 Decimal::new(m, t.n() as u32)
             },
         }),
         other => panic!("bad mdkind {other}"),
-    }
+    })
 }
 
 fn f_kind<A>(k: &InstrumentKind<A>, fa: &impl Fn(&A) -> String) -> String {
@@ -771,7 +786,10 @@ fn run() {
                 }
                 "md" => {
                     let (bs, qs) = (t.s(), t.s());
-                    let kind = p_mdkind(&mut t);
+                    let Some(kind) = p_mdkind(&mut t) else {
+                        lines.push("bad-op".into());
+                        continue;
+                    };
                     let md = MarketDataInstrument::new(bs.as_str(), qs.as_str(), kind.clone());
                     lines.push(format!("base {}", enc_s(md.base.name())));
                     lines.push(format!("quote {}", enc_s(md.quote.name())));
@@ -801,7 +819,10 @@ fn run() {
                             InstrumentQuoteAsset::UnderlyingBase,
                             InstrumentQuoteAsset::UnderlyingQuote,
                         ][t.n()];
-                        let kind = p_kind(&mut t);
+                        let Some(kind) = p_kind(&mut t) else {
+                            lines.push("bad-op".into());
+                            continue;
+                        };
                         let spec = p_spec(&mut t);
                         Instrument::new(e, ni.as_str(), ne.as_str(), underlying, qa, kind, spec)
                     } else {
